@@ -2,12 +2,16 @@
 //!
 //! * a virtual clock: when installed, `deadline_exceeded(Some(_))` answers
 //!   from a thread-local probe counter instead of the wall clock;
+//! * the deadline value that reached `deadline_exceeded` last is recorded, so
+//!   that a harness can check the value configured on a builder or passed to
+//!   a capture function arrives unchanged;
 //! * a swap-repair switch for the compaction step, used only to attribute a
 //!   failing case to the known stale-carried-index finding.
 #![allow(missing_docs)]
 
 use std::cell::Cell;
 
+use crate::deadline_support::Instant;
 use crate::DiffOp;
 
 thread_local! {
@@ -16,6 +20,22 @@ thread_local! {
     static EXPIRE_AT: Cell<Option<u64>> = Cell::new(None);
     static EXPIRED: Cell<bool> = Cell::new(false);
     static REPAIR_SWAP: Cell<bool> = Cell::new(false);
+    static LAST_DEADLINE: Cell<Option<Instant>> = Cell::new(None);
+}
+
+/// The deadline most recently passed to `deadline_exceeded` on this thread
+/// (None if there was none since the last `reset_last_deadline`).
+pub fn last_deadline() -> Option<Instant> {
+    LAST_DEADLINE.with(|c| c.get())
+}
+
+/// Forgets the recorded deadline.
+pub fn reset_last_deadline() {
+    LAST_DEADLINE.with(|c| c.set(None));
+}
+
+pub(crate) fn note_deadline(deadline: Instant) {
+    LAST_DEADLINE.with(|c| c.set(Some(deadline)));
 }
 
 /// Installs the virtual clock on this thread.  The probe with 0-based index
